@@ -333,7 +333,8 @@ func (c *vlitCase) Run() string {
 	c.have = true
 	v := c.value()
 	w := newVWriter()
-	c.out = guard(func() string { return "ok " + hx(w.render(snippet.Value(v.Interface()))) })
+	sn := snippet.Value(v.Interface()) // one snippet object: a generator may keep it and render it into several files
+	c.out = guard(func() string { return "ok " + hx(w.render(sn)) })
 	imps := showImports(w.tr.Imports())
 	c.line = guard(func() string {
 		var toks []string
@@ -346,7 +347,13 @@ func (c *vlitCase) Run() string {
 		// rendered again through fresh writers gives the same bytes
 		for i := 0; i < 6; i++ {
 			w2 := newVWriter()
-			again := guard(func() string { return "ok " + hx(w2.render(snippet.Value(v.Interface()))) })
+			// odd rounds: the very snippet object rendered above, into another file (its own writer, namer and import table)
+			again := guard(func() string {
+				if i%2 == 1 {
+					return "ok " + hx(w2.render(sn))
+				}
+				return "ok " + hx(w2.render(snippet.Value(v.Interface())))
+			})
 			if again != "panic" {
 				again += " imports " + showImports(w2.tr.Imports())
 			}
@@ -858,7 +865,7 @@ func init() {
 				return &vlitCase{Root: r.Intn(len(c10Roots)), Seed: r.U64(), Depth: 1 + r.Intn(4)}
 			},
 			ShrinkBudget: 6, MaxShrinks: 5,
-			Rule: "random values (depth ≤ 4) of 49 root types (maps keyed by bool, float64, int32, uint8, a named string, [2]int and a struct among them, nested maps, slices of slices, arrays of arrays) (one of them holding composites that differ only below a pointer side by side) built with reflect around fixture named types of three packages, time.Duration and an unnamed struct type: structs with exported and unexported fields, single-level pointers to scalars / strings / named scalars / structs (zero ones included; sometimes one and the same pointer in several elements of a slice or array, or in two fields), slices, arrays, maps with string / int / named keys, strings with quotes, newlines, backquotes, NUL and non-UTF-8 bytes, extreme integers, runes, float32/float64 edge values; rendered with snippet.Value through a real writer, then six more times through fresh writers (same bytes, same import names: map order must not show); compared with the model byte for byte (leaf literals and type texts supplied); oracle: every literal parses as a Go expression, and a sample (quick: 300, thorough: all) is compiled as `var vN T = <literal>` with the registered imports and run, canon.Value of the result compared with canon.Value of the original (nil = empty, omitted fields zero)",
+			Rule: "random values (depth ≤ 4) of 49 root types (maps keyed by bool, float64, int32, uint8, a named string, [2]int and a struct among them, nested maps, slices of slices, arrays of arrays) (one of them holding composites that differ only below a pointer side by side) built with reflect around fixture named types of three packages, time.Duration and an unnamed struct type: structs with exported and unexported fields, single-level pointers to scalars / strings / named scalars / structs (zero ones included; sometimes one and the same pointer in several elements of a slice or array, or in two fields), slices, arrays, maps with string / int / named keys, strings with quotes, newlines, backquotes, NUL and non-UTF-8 bytes, extreme integers, runes, float32/float64 edge values; rendered with snippet.Value through a real writer, then six more times through fresh writers — three of them with the very snippet object of the first rendering — (same bytes, same import names registered with each writer: map order must not show, and a snippet kept by a generator renders into a second file as into the first); compared with the model byte for byte (leaf literals and type texts supplied); oracle: every literal parses as a Go expression, and a sample (quick: 300, thorough: all) is compiled as `var vN T = <literal>` with the registered imports and run, canon.Value of the result compared with canon.Value of the original (nil = empty, omitted fields zero)",
 		}
 		return st
 	}
